@@ -96,6 +96,101 @@ def _impl_led(colors, intensity):
     return [data[2 * k] * 256 + data[2 * k + 1] for k in range(12)]
 
 
+def _impl_ledt(entries):
+    """entries: list of (time, r, g, b, leds, fade, rotate); returns the bytes LEDTimingsDriverMemory.write_data hands
+    to the memory handler (4 bytes per emitted step + the all-zero terminator)."""
+    from cflib.crazyflie.mem.led_timings_driver_memory import LEDTimingsDriverMemory
+    rec = _Rec()
+    m = LEDTimingsDriverMemory(id=5, type=0x17, size=2000, mem_handler=rec)
+    for (t, r, g, b, leds, fade, rot) in entries:
+        m.add(t, {'r': r, 'g': g, 'b': b}, leds, fade, rot)
+    m.write_data(None)
+    (addr, data, fl), = rec.w
+    assert addr == 0
+    return list(bytes(data))
+
+
+def _ledt_steps(img):
+    """what the firmware reads: 4-byte steps up to the first all-zero one"""
+    out = []
+    for i in range(0, len(img) - 3, 4):
+        st = img[i:i + 4]
+        if st == [0, 0, 0, 0]:
+            break
+        out.append((st[0], st[1] * 256 + st[2], st[3]))
+    return out
+
+
+def oracle_led_timings(ctx, deep=False):
+    """LED timing sequences (property text: 8-bit colours map monotonically onto RGB565, black to 0, white to full scale;
+    here without intensity).  Every step whose encoded form is not all-zero must reach the firmware, in order."""
+    fails = []
+    n = 0
+
+    def bad(cls, case, **kw):
+        fails.append(dict({'class': cls, 'case': dict(case, fn='led_timings')}, **kw))
+    try:
+        marker = (1, _ref565(9, 9, 9), 0)
+        for t in (0, 3, 256):
+            prev = None
+            for c in range(256):
+                cur = []
+                for ch in range(3):
+                    rgb = [(c if j_ == ch else 0) for j_ in range(3)]
+                    steps = _ledt_steps(_impl_ledt([(t, rgb[0], rgb[1], rgb[2], 0, False, 0), (1, 9, 9, 9, 0, False, 0)]))
+                    n += 1
+                    case = {'time': t, 'level': c, 'channel': 'rgb'[ch]}
+                    if not steps or steps[-1] != marker or len(steps) > 2:
+                        bad('led_timings_steps_lost', case, observed=steps)
+                        cur.append(0)
+                        continue
+                    if len(steps) == 1:
+                        # the colour step was not emitted: allowed only if all four of its bytes are zero
+                        if (t & 255) != 0 or _ref565(*rgb) != 0:
+                            bad('led_timings_colour_step_dropped', case, observed=steps,
+                                detail='a step with a non-black colour (or a delay) never reaches the firmware')
+                        cur.append(0)
+                        continue
+                    w = steps[0][1]
+                    field = ((w >> 11) & 31, (w >> 5) & 63, w & 31)
+                    if steps[0][0] != (t & 255) or steps[0][2] != 0 or any(field[j_] for j_ in range(3) if j_ != ch):
+                        bad('led_field_bleed', case, observed=steps)
+                    cur.append(field[ch])
+                if prev is not None and any(a > b for a, b in zip(prev, cur)):
+                    bad('led_not_monotone', {'time': t, 'level': c}, observed=[prev, cur])
+                prev = cur
+                if c == 255 and cur != [31, 63, 31]:
+                    bad('led_white_not_full', {'time': t, 'level': c}, observed=cur)
+                if c == 0 and cur != [0, 0, 0]:
+                    bad('led_black_not_zero', {'time': t, 'level': c}, observed=cur)
+        rng = ctx.rng
+        for _ in range(ctx.scale(300, 3000) * (2 if deep else 1)):
+            ents = [(rng.choice([0, 0, 1, 7, 255, 256, 300]), rng.choice([0, 0, 1, 4, 5, 128, 255]), rng.choice([0, 0, 1, 2, 3, 200, 255]),
+                     rng.choice([0, 0, 1, 4, 5, 77, 255]), rng.choice([0, 0, 1, 15]), rng.random() < 0.2, rng.choice([0, 0, 1, 7]))
+                    for _k in range(rng.randrange(1, 7))]
+            img = _impl_ledt(ents)
+            n += 1
+            exp = []
+            for (t, r, g, b, leds, fade, rot) in ents:
+                extra = (leds & 15) | ((1 if fade else 0) << 4) | ((rot & 7) << 5)
+                st = (t & 255, _ref565(r, g, b), extra)
+                if st != (0, 0, 0):
+                    exp.append(st)
+            if _ledt_steps(img) != exp or img[-4:] != [0, 0, 0, 0] or len(img) != 4 * len(exp) + 4:
+                bad('led_timings_sequence_differs', {'entries': [list(e) for e in ents]}, expected=exp, observed=_ledt_steps(img))
+    except Exception as e:      # noqa
+        fails.append({'class': 'led_write_raises', 'case': {'fn': 'led_timings'}, 'observed': repr(e)})
+    return {'evaluations': n, 'failures': fails[:8],
+            'rule': 'LED timing sequences through the real write_data: every level of every channel at step times 0, 3 and 256 '
+                    '(colour steps must reach the firmware unless all four bytes are zero; monotone, no bleed, black 0, white full) '
+                    '+ random sequences against an independent encoder'}
+
+
+def _ref565(r, g, b):
+    """independent reference: nearest 5/6/5-bit level (the firmware-side scale: 31/255 and 63/255 with rounding)"""
+    return (((r * 249 + 1014) >> 11) << 11) | (((g * 253 + 505) >> 10) << 5) | ((b * 249 + 1014) >> 11)
+
+
 _cache = {}
 
 
@@ -260,6 +355,9 @@ def replay(payload, ctx):
     if c.get('fn') == 'fp16_to_float':
         got, ref = _impl_fp16(c['arg']), _ref_fp16(c['arg'])
         return None if got == ref else {'expected': ref, 'observed': got}
+    if c.get('fn') == 'led_timings':
+        fs = oracle_led_timings(ctx, deep=False)['failures']
+        return fs[0] if fs else None
     fs = oracle_fp16_led(ctx, deep=True)['failures']
     fs = [f for f in fs if f['case'].get('fn') == 'led']
     return fs[0] if fs else None
@@ -766,4 +864,5 @@ def tie(ctx):
 
 def oracle(ctx, deep=False):
     from props import c13_quat
-    return _merge(_merge(oracle_fp16_led(ctx, deep), oracle_streams(ctx, deep)), c13_quat.oracle_quat(ctx, deep))
+    return _merge(_merge(_merge(oracle_fp16_led(ctx, deep), oracle_led_timings(ctx, deep)), oracle_streams(ctx, deep)),
+                  c13_quat.oracle_quat(ctx, deep))
